@@ -53,6 +53,24 @@ CLAIMS = {
         "an error) change nothing; accessors have `modifies nothing`.",
         "Binary reader only. Navigation programs as a whole follow from the per-call contracts on paper.",
         "DESIGN.md section 7 C08"),
+    "C09": (
+        "Shared and local symbol tables under contract: buildIndex (loop invariant over the map: every entry lies in [offset, offset+len)), "
+        "NewSharedSymbolTable, sst.MaxID/FindByID/FindByName/Adjust (padding and truncation keep name, version, the retained symbols and a text "
+        "index that only points at retained symbols; the result's max_id is the requested one), lst.MaxID/FindByID (IDs above the maximum and 0 "
+        "are rejected, local symbols follow the imports in order), findByIDInImports and lst.FindByName (loop invariants, index safety), "
+        "symbolTableBuilder.Add (known text returns without adding, new text gets max+1, is findable afterwards, earlier symbols are not "
+        "renumbered), NewSymbolTokenBySID.",
+        "Not decided: processImports' prefix sums (cumulative offsets) and lowest-ID-wins across imports - lstWF is an assumed precondition of the "
+        "lst methods, established by constructors that are not under contract; observers of foreign SymbolTable implementations are assumed pure.",
+        "DESIGN.md section 7 C09"),
+    "C12": (
+        "For every method of both writers (binary and text, 24 methods each, plus FieldName/Annotation/Annotations): once w.err is set the call "
+        "returns it and leaves it in place, and a call other than Finish that returns an error has recorded it in w.err - so checking the final "
+        "Finish is enough. binaryWriter.beginValue/writeValue refuse a value inside a struct without a field name; container.Len equals the "
+        "bytes EmitTo writes for the tag; the text writer's Finish keeps a pending separator unless it wrote the newline that replaces it.",
+        "Not decided: that the emitted values are exactly those of the calls that succeeded (protocol-level), determinism, re-arming after Finish "
+        "in the binary writer, and no-panic for invalid Type arguments. The writers' internal helpers are called by contract with `modifies *`.",
+        "DESIGN.md section 7 C12"),
     "C13": (
         "Integer codecs: the bits.go encoders against closed-form byte specifications for all 64-bit values; readVarUintLen/readVarIntLen/ReadInt/"
         "ReadSymbolID decode exactly (int64 fast path iff the magnitude fits, otherwise big.Int); ReadFloat decodes 4- and 8-byte IEEE values "
